@@ -74,4 +74,46 @@ class Plugin(HistPlugin):
                              'failing_clause': 'the upserted document does not carry an equality field of the filter'})
                 if len(viol) >= 3:
                     break
-        return viol, {'upsert_seed_probes': probes}
+        # an operator condition on _id is not a value: the upserted document's _id is the operand of
+        # {$eq: v}, else fresh - never the condition itself; upserted_id is the new _id
+        idp = 0
+        for i in range(40 if tier == 'quick' else 400):
+            cond = rng.choice([{'$in': [7, 8]}, {'$gt': 100}, {'$eq': 5}, {'$gte': 3, '$lt': 1}, {'$in': []},
+                               {'$eq': 'k'}, {'$gt': 100, '$lt': 200}])
+            f = {'_id': copy.deepcopy(cond)}
+            if rng.random() < 0.5:
+                f['kind'] = rng.choice(['x', 1])
+            via = rng.choice(['update_one', 'update_many', 'find_one_and_update', 'replace_one', 'find_one_and_replace'])
+            arg = {'v': 1} if 'replace' in via else rng.choice([{'$set': {'v': 1}}, {'$inc': {'v': 1}}, {'$setOnInsert': {'v': 1}}])
+            c = mongomock.MongoClient().db.c
+            c.insert_one({'_id': 'other', 'v': 0})
+            try:
+                res = getattr(c, via)(copy.deepcopy(f), copy.deepcopy(arg), upsert=True)
+            except Exception as e:  # noqa
+                res = e
+            docs = [d for d in c.find() if d['_id'] != 'other']
+            idp += 1
+            bad, fid = None, None
+            if isinstance(res, Exception):
+                bad = 'the upsert raised %s' % type(res).__name__
+            elif len(docs) != 1:
+                bad = 'the upsert inserted %d documents' % len(docs)
+            else:
+                nid = docs[0].get('_id')
+                if isinstance(nid, dict) and any(str(k).startswith('$') for k in nid):
+                    bad = 'the condition on _id was stored as the _id of the upserted document'
+                    if 'replace' in via and nid == cond:
+                        fid = 'F-REPLACE-OPERATOR-ID'
+                elif set(cond) == {'$eq'} and nid != cond['$eq']:
+                    bad = 'the _id of the upserted document is not the operand of $eq'
+                elif hasattr(res, 'upserted_id') and res.upserted_id != nid:
+                    bad = 'upserted_id is not the _id of the upserted document'
+            if bad:
+                v = {'case': {'filter': common.to_jsonable(f), 'arg': common.to_jsonable(arg), 'via': via},
+                     'impl': {'inserted': common.to_jsonable(docs)}, 'failing_clause': bad}
+                if fid:
+                    v['finding_id'] = fid
+                viol.append(v)
+                if len([x for x in viol if 'finding_id' not in x]) >= 3:
+                    break
+        return viol, {'upsert_seed_probes': probes, 'operator_id_upsert_probes': idp}
